@@ -185,8 +185,54 @@ def _whole_state_stores(P, f):
     return out
 
 
-def _busy_truth(P, a):
+_REPORTED = {}
+
+
+def _reported_busy(P):
+    """if Channel::send_message reports the transmitter state through a private field-less enum: {variant: busy?} - established on
+    send_message itself: on every returning path the variant returned tells whether the channel is busy at that point (it was found
+    busy on entry, or it was marked busy on the path).  None if there is no such report or it is not consistent."""
+    if id(P) in _REPORTED:
+        return _REPORTED[id(P)]
+    out = None
+    g = P.fns.get(CH + 'Channel::send_message')
+    if g is not None and g.local_ty(0).startswith('des::net::channel::'):
+        m = {}
+        ok = True
+        for path, outcome, decs in g.enum_paths():
+            if outcome != 'return' or not consistent(g, path, decs):
+                continue
+            r = path_ret_resolved(g, path)
+            r = peel(r) if r is not None else ('unknown',)
+            if not (r[0] == 'agg' and str(r[1]).startswith('adt:des::net::channel::') and not r[2]):
+                ok = False; break
+            atoms = [a for _, a in path_atoms(g, path, decs)]
+            entry = [_busy_truth(P, a, _no_report=True) for a in atoms]
+            entry = [x for x in entry if x is not None]
+            sets_, _ = _busy_writes(P, g, path_effects(g, path))
+            marked = bool(sets_) or any(e[0] == 'c' and e[1].name == CH + 'Channel::set_busy_until' for e in path_effects(g, path))
+            busy_end = (entry[:1] == [True]) or marked
+            v = str(r[1]).rsplit('::', 1)[-1]
+            if m.setdefault(v, busy_end) != busy_end:
+                ok = False; break
+        if ok and set(m.values()) == {True, False}:
+            out = m
+    _REPORTED[id(P)] = out
+    return out
+
+
+def _busy_truth(P, a, _no_report=False):
     """True/False if the atom states that the channel is busy / idle, else None"""
+    if not _no_report and a and a[0] == 'cmp' and a[1] in ('eq', 'ne'):
+        # the state as reported by send_message (`== Transmitter::Occupied`)
+        sides = (a[2], a[3])
+        call = [x for x in sides if x[0] == 'discr' and peel_c(x[1])[0] == 'call' and peel_c(x[1])[1] == CH + 'Channel::send_message']
+        lit = [x for x in sides if x[0] == 'discr' and peel_c(x[1])[0] == 'agg']
+        if len(call) == 1 and len(lit) == 1:
+            rep = _reported_busy(P)
+            v = str(peel_c(lit[0][1])[1]).rsplit('::', 1)[-1]
+            if rep is not None and v in rep:
+                return rep[v] if a[1] == 'eq' else (not rep[v])
     kind, name = _busy_repr(P)
     if kind == 'flag':
         if a and a[0] == 'bool' and a[1][0] == 'field' and a[1][2] == name:
